@@ -839,6 +839,154 @@ Proof.
 Qed.
 
 
+
+(* ---------- fuel: a static bound suffices for every delivery ---------- *)
+Lemma drain_terminates2 dl : forall fuel q s,
+  Inv dl None s q -> measure s q <= fuel -> exists s', drain fuel q s = Some s' /\ 2 * Lsum s' <= measure s q.
+Proof.
+  induction fuel as [|f IH]; intros q s I Hm.
+  - destruct q as [|i q']; [simpl; exists s; split; [reflexivity|unfold measure; simpl; lia]|]. unfold measure in Hm. simpl in Hm. lia.
+  - destruct q as [|[[[p c] pl] v] q']; [simpl; exists s; split; [reflexivity|unfold measure; simpl; lia]|].
+    rewrite drain_cons.
+    assert (Hi : In (p,c,pl,v) ((p,c,pl,v)::q')) by now left.
+    destruct (inv_q1 _ _ _ _ I _ Hi) as [(r & Hr & Hir) _]. unfold ipar in Hr; simpl in Hr.
+    rewrite Hr.
+    destruct (account_inv _ _ _ _ _ _ _ _ I Hr) as (I1 & (es0 & acc & A1 & A2 & A3 & A4 & A5) & Hini).
+    cbv zeta.
+    set (r' := mkrec (r_init r) (apply (contrib pl v) (r_val r)) (pred (r_pending r)) (r_lst r)) in *.
+    set (s1 := fire_rec s p c pl r') in *.
+    assert (Hr1 : recs s1 p = Some r') by (unfold s1; simpl; apply fupd_eq).
+    assert (Hpin : In p ids) by (eapply inv_ids; eauto).
+    assert (Hs1 : forall n, n <> p -> recs s1 n = recs s n) by (intros; unfold s1; simpl; now apply fupd_ne).
+    assert (HL1 : Lsum s1 = Lsum s).
+    { pose proof (Lsum_change s s1 p Hpin Hs1) as E. unfold lcount in E. rewrite Hr1, Hr in E. simpl in E. lia. }
+    unfold measure in Hm. simpl in Hm.
+    destruct (Nat.eqb (r_pending r') 0) eqn:Hz.
+    + apply Nat.eqb_eq in Hz. rewrite Hz in A5. symmetry in A5. apply length_zero_iff_nil in A5.
+      rewrite A5, app_nil_r in A3.
+      assert (Hs2 : forall n, n <> p -> recs (fst (finalize s1 p r')) n = recs s1 n)
+        by (intros; simpl; now apply fupd_ne).
+      pose proof (Lsum_change s1 (fst (finalize s1 p r')) p Hpin Hs2) as E.
+      unfold lcount in E. rewrite Hr1 in E. simpl in E. rewrite fupd_eq in E.
+      assert (Hm2 : measure (fst (finalize s1 p r')) (snd (finalize s1 p r') ++ q') <= f).
+      { unfold measure. simpl. rewrite app_length, map_length. simpl in E. lia. }
+      destruct (IH _ _ (finalize_inv _ _ _ _ _ _ I1 Hr1 Hini A1 A2 ltac:(rewrite A4; now apply val_is_spec) A5) Hm2) as (s' & Hd & Hb).
+      exists s'. split; [exact Hd|]. unfold measure in *. simpl in *. rewrite app_length, map_length in Hb. simpl in E. lia.
+    + apply Nat.eqb_neq in Hz.
+      assert (I2 : Inv dl None s1 q').
+      { eapply inv_lift; eauto. intros _. split; [|lia]. exists es0, acc. auto. }
+      destruct (IH q' s1 I2 ltac:(unfold measure; lia)) as (s' & Hd & Hb).
+      exists s'. split; [exact Hd|]. unfold measure in *. simpl. lia.
+Qed.
+
+Lemma Lsum_add_listener s c l : In c ids -> Lsum (add_listener s c l) = S (Lsum s).
+Proof.
+  intros Hin.
+  assert (Hsame : forall n, n <> c -> recs (add_listener s c l) n = recs s n).
+  { intros n Hn. unfold add_listener; simpl. now apply fupd_ne. }
+  pose proof (Lsum_change s (add_listener s c l) c Hin Hsame) as E.
+  unfold lcount in E. unfold add_listener at 2 in E. simpl in E. rewrite fupd_eq in E. simpl in E.
+  rewrite app_length in E. simpl in E. unfold get_rec in E. destruct (recs s c); simpl in E; lia.
+Qed.
+
+Lemma Lsum_set_rec_same s p r r' : In p ids -> recs s p = Some r -> length (r_lst r') = length (r_lst r) ->
+  Lsum (set_rec s p r') = Lsum s.
+Proof.
+  intros Hin Hr Hl.
+  assert (Hsame : forall n, n <> p -> recs (set_rec s p r') n = recs s n) by (intros; simpl; now apply fupd_ne).
+  pose proof (Lsum_change s (set_rec s p r') p Hin Hsame) as E. unfold lcount in E. simpl in E. rewrite fupd_eq, Hr in E. lia.
+Qed.
+
+Lemma Lsum_set_rec_new s p r' : In p ids -> recs s p = None -> Lsum (set_rec s p r') = Lsum s + length (r_lst r').
+Proof.
+  intros Hin Hr.
+  assert (Hsame : forall n, n <> p -> recs (set_rec s p r') n = recs s n) by (intros; simpl; now apply fupd_ne).
+  pose proof (Lsum_change s (set_rec s p r') p Hin Hsame) as E. unfold lcount in E. simpl in E. rewrite fupd_eq, Hr in E. lia.
+Qed.
+
+Lemma scan_entries_Lsum t : forall es val pend s,
+  (forall n pl, In (Child n pl) es -> In n ids) ->
+  Lsum (snd (scan_entries t es val pend s)) <= Lsum s + length (children es).
+Proof.
+  induction es as [|e es IH]; intros val pend s Hch; simpl; [lia|].
+  assert (Hch' : forall n pl, In (Child n pl) es -> In n ids) by (intros; eapply Hch; right; eauto).
+  destruct e as [c|n pl]; simpl.
+  - apply IH; assumption.
+  - destruct (done s n).
+    + specialize (IH (apply (contrib pl v) val) pend s Hch'). lia.
+    + specialize (IH val (S pend) (add_listener s n (t, pl)) Hch').
+      rewrite Lsum_add_listener in IH by (eapply Hch; left; reflexivity). lia.
+Qed.
+
+Lemma deliver_terminates dl fuel t es s :
+  Inv dl None s [] -> ~ dl t -> In t ids -> nodes t = Some es ->
+  (forall n pl, In (Child n pl) es -> n <> t /\ In n ids) ->
+  2 * (Lsum s + length (children es)) <= fuel ->
+  exists s', deliver fuel t es s = Some s' /\ Lsum s' <= Lsum s + length (children es).
+Proof.
+  intros I Hndl Hin Hes Hch Hfuel. unfold deliver.
+  destruct (start_inv dl s t I Hndl Hin) as (I0 & Ht0 & Hl0).
+  set (s0 := set_rec s t (mkrec true init 0 (r_lst (get_rec s t)))) in *.
+  assert (HL0 : Lsum s0 = Lsum s).
+  { unfold s0, get_rec. destruct (recs s t) as [r|] eqn:Er.
+    - eapply Lsum_set_rec_same; eauto.
+    - rewrite Lsum_set_rec_new by assumption. simpl. lia. }
+  destruct (scan_entries t es init 0 s0) as [[val pend] s1] eqn:Hs.
+  assert (HL1 : Lsum s1 <= Lsum s + length (children es)).
+  { pose proof (scan_entries_Lsum t es init 0 s0 (fun n pl H => proj2 (Hch n pl H))) as H. rewrite Hs in H. simpl in H. lia. }
+  assert (Hc0 : ScanC t s0 [] init 0).
+  { exists []. rewrite Hl0. simpl. repeat split; constructor. }
+  destruct (scan_inv _ t es [] init 0 s0 val pend s1 Hch I0 Ht0 Hc0 Hs) as (I1 & (rt & Hrt & Hirt) & (acc & C1 & C2 & C3)).
+  simpl in C1, C2.
+  set (r1 := mkrec true val pend (r_lst (get_rec s1 t))) in *.
+  assert (Hl1 : r_lst r1 = r_lst rt) by (unfold r1, get_rec; simpl; now rewrite Hrt).
+  assert (Hi1 : r_init r1 = r_init rt) by (simpl; congruence).
+  destruct (set_rec_same_lst _ _ _ _ _ r1 Hrt Hi1 Hl1 I1) as (I2 & Hlp).
+  set (s2 := set_rec s1 t r1) in *.
+  assert (HL2 : Lsum s2 = Lsum s1) by (eapply Lsum_set_rec_same; eauto; now rewrite Hl1).
+  assert (Hr2 : recs s2 t = Some r1) by (unfold s2; simpl; apply fupd_eq).
+  assert (Hu : unacc s2 [] t = lstpart s1 t) by (unfold unacc; rewrite Hlp; simpl; now rewrite app_nil_r).
+  destruct (Nat.eqb pend 0) eqn:Hz.
+  - apply Nat.eqb_eq in Hz. rewrite Hz in C3. symmetry in C3. apply length_zero_iff_nil in C3.
+    rewrite C3, app_nil_r in C1.
+    assert (If : Inv (dl_add dl t) None (fst (finalize s2 t r1)) (snd (finalize s2 t r1) ++ [])).
+    { eapply finalize_inv; eauto.
+      - now right.
+      - simpl. rewrite C2. now apply val_is_spec.
+      - now rewrite Hu. }
+    rewrite app_nil_r in If.
+    assert (Hs3 : forall n, n <> t -> recs (fst (finalize s2 t r1)) n = recs s2 n) by (intros; simpl; now apply fupd_ne).
+    pose proof (Lsum_change s2 (fst (finalize s2 t r1)) t Hin Hs3) as E.
+    unfold lcount in E. rewrite Hr2 in E. simpl in E. rewrite fupd_eq in E.
+    assert (Hm : measure (fst (finalize s2 t r1)) (snd (finalize s2 t r1)) <= fuel).
+    { unfold measure. simpl. rewrite map_length. simpl in E. lia. }
+    destruct (drain_terminates2 _ fuel _ _ If Hm) as (s' & Hd & Hb).
+    exists s'. split; [exact Hd|]. unfold measure in Hb. simpl in Hb. rewrite map_length in Hb. simpl in E. lia.
+  - exists s2. split; [reflexivity|]. lia.
+Qed.
+
+Definition nchildren (t : N) : nat := match nodes t with Some es => length (children es) | None => 0 end.
+
+Lemma run_terminates fuel : forall ds dl s,
+  Inv dl None s [] -> NoDup ds -> (forall t, In t ds -> ~ dl t) -> (forall t, In t ds -> wf_node t) ->
+  2 * (Lsum s + list_sum (map nchildren ds)) <= fuel ->
+  exists s', run fuel ds s = Some s'.
+Proof.
+  induction ds as [|t ds IH]; intros dl s I Hnd Hfresh Hwf Hf; simpl; [eauto|].
+  destruct (Hwf t (or_introl eq_refl)) as (Hin & es & Hes & Hch). rewrite Hes.
+  change (map nchildren (t :: ds)) with (nchildren t :: map nchildren ds) in Hf.
+  change (list_sum (nchildren t :: map nchildren ds)) with (nchildren t + list_sum (map nchildren ds)) in Hf.
+  unfold nchildren at 1 in Hf. rewrite Hes in Hf.
+  destruct (deliver_terminates dl fuel t es s I (Hfresh t (or_introl eq_refl)) Hin Hes Hch ltac:(lia)) as (s1 & Hd & HL).
+  rewrite Hd.
+  assert (I1 := deliver_inv dl fuel t es s s1 I (Hfresh t (or_introl eq_refl)) Hin Hes Hch Hd).
+  inversion Hnd; subst.
+  apply (IH (dl_add dl t) s1 I1); auto.
+  - intros t' Ht' [Hd'| ->]; [|contradiction]. apply (Hfresh t'); [now right|auto].
+  - intros t' Ht'. apply Hwf. now right.
+  - lia.
+Qed.
+
 (* ---------- the event log ---------- *)
 Definition fins (l : list levent) : list (N * V) :=
   flat_map (fun e => match e with LFin n v => [(n, v)] | LFire _ _ _ => [] end) l.
